@@ -29,6 +29,68 @@ def bounds_game(n, lo, up):
     return g
 
 
+class ProtoGame:
+    """A minimal object implementing the IncompleteGame protocol without being an IncompleteCooperativeGame (C05 is stated for the
+    protocol): bounds held as plain arrays -- float64, or exact Fractions in an object array (a 'symbolic' game)."""
+
+    def __init__(self, n, lo, up, exact=False):
+        from fractions import Fraction
+        self.number_of_players = n
+        conv = (lambda x: Fraction(float(x))) if exact else float
+        self._lo = np.array([conv(x) for x in lo], dtype=object if exact else np.float64)
+        self._up = np.array([conv(x) for x in up], dtype=object if exact else np.float64)
+        self._up[-1] = self._lo[-1]                          # the grand coalition is known
+        self._known = np.array([l == u for l, u in zip(self._lo, self._up)])
+
+    def _sel(self, arr, coalitions):
+        return arr.copy() if coalitions is None else arr[[c.id for c in coalitions]]
+
+    def get_upper_bounds(self, coalitions=None):
+        return self._sel(self._up, coalitions)
+
+    def get_lower_bounds(self, coalitions=None):
+        return self._sel(self._lo, coalitions)
+
+    def get_upper_bound(self, coalition):
+        return self._up[coalition.id]
+
+    def get_lower_bound(self, coalition):
+        return self._lo[coalition.id]
+
+    def get_interval(self, coalition):
+        return np.array([self._lo[coalition.id], self._up[coalition.id]])
+
+    def get_intervals(self, coalitions=None):
+        return np.stack([self.get_lower_bounds(coalitions), self.get_upper_bounds(coalitions)], axis=1)
+
+    def is_value_known(self, coalition):
+        return bool(self._known[coalition.id])
+
+    def are_values_known(self, coalitions=None):
+        return self._sel(self._known, coalitions)
+
+    def get_known_value(self, coalition):
+        return self._lo[coalition.id] if self._known[coalition.id] else None
+
+    def get_known_values(self, coalitions=None):
+        return self._sel(np.where(self._known, self._lo, np.nan), coalitions)
+
+    def get_value(self, coalition):
+        if not self._known[coalition.id]:
+            raise ValueError("unknown")
+        return self._lo[coalition.id]
+
+    def get_values(self, coalitions=None):
+        ids = range(len(self._lo)) if coalitions is None else [c.id for c in coalitions]
+        return np.array([self.get_value(Coalition(i)) for i in ids])
+
+    def copy(self):
+        return ProtoGame(self.number_of_players, self._lo, self._up)
+
+    def __add__(self, other):
+        raise NotImplementedError
+
+
 def scale_of(vals):
     s = 1
     while any(float(x) * s != round(float(x) * s) for x in vals):
@@ -79,7 +141,8 @@ def expl_trace(tid, n, lo, up):
          "sh_all": [], "sh_one": [], "entry_bits": 1, "en": [0, 0], "maxsh": [], "sh_w": [], "exc": "", "mg": [], "lo_after": [], "up_after": [],
          "en_after": [0, 0]}
     try:
-        g = bounds_game(n, lo, up)
+        # every third game is not an IncompleteCooperativeGame but another implementation of the protocol (floats / exact Fractions)
+        g = bounds_game(n, lo, up) if tid % 3 else ProtoGame(n, lo, up, exact=(tid % 6 == 0))
         e = compute_exploitability(g)
         t["en"] = D.interval(float(e), factorial(n) * scale, rel_ulps=8 * (n + 2), mag=(2 * n + 1) * M, tight=True)
         # the per-player max-gain games, read in full and coalition by coalition; reading them must leave the game as it was
